@@ -73,6 +73,8 @@ def _record(i):
             rec["model_case_error"] = f"{type(e).__name__}: {e}"
     if r == "unknown":
         rec["reason"] = getattr(ob, "reason", "")
+    if ob.meta.get("spurious_risk"):
+        rec["spurious_risk"] = ob.meta["spurious_risk"]
     if os.environ.get("PYVC_RECORD_CORES") and r == "proved" and ob.kind != "mustfail" and "core-hint" not in ob.backend \
             and ob.seconds > float(os.environ.get("PYVC_CORE_MIN_SECONDS", "1.0")):
         from .verify import find_core, core_key
